@@ -108,6 +108,10 @@ fn scenarios() -> Vec<Scenario> {
         mk("shared-is-one-object", "DIM SHARED G%\nG% = 1\nP\nPRINT G%\nEND\nSUB P\nG% = G% + 5\nQ\nEND SUB\nSUB Q\nG% = G% * 2\nEND SUB\n", &[" 12 "]),
         mk("shared-next-to-local-of-other-suffix", "DIM SHARED Total%\nTotal% = 10\nAddOne\nAddOne\nPRINT \"main\"; Total%\nReport\nEND\nSUB AddOne\nTotal$ = \"adding\"\nTotal% = Total% + 1\nPRINT Total$; Total%\nEND SUB\nSUB Report\nPRINT \"report\"; Total%\nEND SUB\n", &["adding 11 ", "adding 12 ", "main 12 ", "report 12 "]),
         mk("shared-next-to-parameter-of-other-suffix", "DIM SHARED G%\nG% = 1\nP \"x\"\nPRINT G%\nEND\nSUB P (G$)\nG% = G% + 5\nPRINT G$; G%\nEND SUB\n", &["x 6 ", " 6 "]),
+        mk("static-byref-parameter-every-call", "A% = 1\nB% = 5\nC% = 16\nBump A%\nBump B%\nBump C%\nBump A%\nPRINT A%; B%; C%\nEND\nSUB Bump (X%) STATIC\nN% = N% + 1\nX% = X% + 1\nEND SUB\n", &[" 3  6  17 "]),
+        mk("static-byref-array-element-and-field", "TYPE T\nV AS INTEGER\nEND TYPE\nDIM R AS T\nDIM A%(3)\nA%(1) = 10\nR.V = 20\nBump A%(1)\nBump R.V\nBump A%(1)\nPRINT A%(1); R.V\nEND\nSUB Bump (X%) STATIC\nX% = X% + 1\nEND SUB\n", &[" 12  21 "]),
+        mk("static-function-byref-parameter", "A% = 1\nB% = 5\nP% = Twice%(A%)\nQ% = Twice%(B%)\nPRINT A%; B%; P%; Q%\nEND\nFUNCTION Twice% (X%) STATIC\nX% = X% * 2\nTwice% = X% + 100\nEND FUNCTION\n", &[" 2  10  102  110 "]),
+        mk("static-two-parameters-swapped-calls", "A% = 1\nB% = 2\nSw A%, B%\nSw B%, A%\nPRINT A%; B%\nEND\nSUB Sw (X%, Y%) STATIC\nX% = X% + 10\nY% = Y% + 100\nEND SUB\n", &[" 111  112 "]),
         mk("const-visible-everywhere", "CONST K = 7\nP\nEND\nSUB P\nPRINT K\nPRINT F%(1)\nEND SUB\nFUNCTION F% (N%)\nF% = K + N%\nEND FUNCTION\n", &[" 7 ", " 8 "]),
         mk("call-nested-in-arguments", "PRINT F%(F%(1) + F%(2))\nEND\nFUNCTION F% (N%)\nF% = N% + 1\nEND FUNCTION\n", &[" 6 "]),
         mk("byref-through-two-levels", "A% = 1\nP A%\nPRINT A%\nEND\nSUB P (X%)\nQ X%\nEND SUB\nSUB Q (Y%)\nY% = Y% + 41\nEND SUB\n", &[" 42 "]),
